@@ -47,7 +47,7 @@ REGISTERED = {
             "Tagged tokens flow through a real relay in both directions around scripted handshakes (confirm, cancel, malformed ACT/CFG) with arrival patterns before/inside/straddling/after the ACT and CFG lines; every yield point of relay.go and buffer.go is delayed in turn; output must be input with only the consumed line replaced, token order preserved, nothing crossing sides. Family tmux runs the relay in tmux normal mode (fake tmux, client tty = FIFO) with a per-sink token oracle.",
             "schedules are those produced by the perturbation plans over the instrumented points", "DESIGN.md 5/C13"),
     "C14": ("runtime monitoring: wire-tap comparison of ACT/CFG on both sides of each relay + end-to-end tree equality + standby/usable-again probes over transfer sequences; scripted-ends differential (relayed vs direct configuration) around one real relay",
-            "Transfers run through 1-2 real relays for client capability sets x server option sets; ACT' and CFG' are decoded from the taps and must only narrow; after every ending the relay must be in standby, transparent, and the next transfer must work. A second family puts one real relay between scripted ends (Windows-newline client, Windows server, protocol 1..9, any binary/dir/fork set, seeded CFG, six endings, tunnelled ACTs with protocol above 4): the client's resulting configuration must equal the one a direct connection gives apart from the relay's tmux additions.",
+            "Transfers run through 1-2 real relays for client capability sets x server option sets; ACT' and CFG' are decoded from the taps and must only narrow; after every ending the relay must be in standby, transparent, and the next transfer must work. A second family puts one real relay between scripted ends (Windows-newline client, Windows server, protocol 1..9, any binary/dir/fork set, seeded CFG, seven endings incl. a CFG that is not a configuration, tunnelled ACTs with protocol above 4): the client's resulting configuration must equal the one a direct connection gives apart from the relay's tmux additions.",
             "servers are conforming (escape table only with binary offered)", "DESIGN.md 5/C14"),
     "C15": ("runtime monitoring: producer/consumer differential on real archive reader/writer with tree-equality oracle, size conservation and descriptor-count monitor",
             "Real archiveFileReader output is checked against the announced size and fed to the real archiveFileWriter in every single cut / k-byte pieces / random cuts; the reconstructed tree must equal the source; shrinking sources must raise an error; open descriptors are sampled with GC disabled and must not grow with the entry count. Segments are handed to the writer in a reused scratch buffer that is scribbled on after each write.",
